@@ -206,6 +206,24 @@ impl<'a> Fold<Diagnostic> for TypeResolver<'a> {
                     }
                 }
             }
+            InitialValueAssignmentKind::Simple(simple) => {
+                // The type of a variable having a constant as the initial value (or
+                // of an external variable) is known to be simple from the syntax.
+                // The type still must be one that is declared.
+                if !is_elementary_type(&simple.type_name)
+                    && !is_unsupported_standard_type(&simple.type_name)
+                    && self.types.find(&simple.type_name).is_none()
+                {
+                    self.diagnostics.push(
+                        Diagnostic::problem(
+                            Problem::UndeclaredUnknownType,
+                            Label::span(simple.type_name.span(), "Variable type"),
+                        )
+                        .with_context_type("identifier", &simple.type_name),
+                    );
+                }
+                Ok(InitialValueAssignmentKind::Simple(simple))
+            }
             _ => Ok(node),
         }
     }
